@@ -51,7 +51,8 @@
    * \d is modelled as ASCII digits; white space as str.isspace(). *)
 From Coq Require Import List NArith Bool String.
 Import ListNotations.
-Require Import PyStr Regex Regexes HeaderLine HeaderLineSpec HeaderLineFragments HeaderLineProofs.
+Require Import PyStr Regex Regexes HeaderLine HeaderLineSpec HeaderLineFragments HeaderLineProofs
+  HeaderLineTotal HeaderLineName.
 Open Scope string_scope. Open Scope N_scope.
 
 (* 0. the generated ASTs are the ones the proofs are about *)
@@ -166,6 +167,22 @@ Theorem C04_param_time_sweep : forall h mi : nat, (h < 24)%nat -> (mi < 60)%nat 
   read_header_line (time_line h mi) false true = Some (time_expected h mi).
 Proof. exact time_sweep. Qed.
 
+(* 6. universal over ALL lines (not only conformant layouts): a newline-free line that contains
+   a period or a colon always parses (no AttributeError), and the parsed mnemonic never
+   contains a period — outside the ~Curves dots special case *)
+Theorem C04_total_on_period_lines : forall (line : list N) (is_curves is_param : bool),
+  in_str 46 line || in_str 58 line = true ->
+  in_str 10 line = false ->
+  (is_curves = true -> no_double_dot line = true) ->
+  read_header_line line is_curves is_param <> None.
+Proof. exact total_on_lines. Qed.
+
+Theorem C04_name_no_period : forall (line : list N) (is_curves is_param : bool) (h : hline),
+  (is_curves = true -> no_double_dot line = true) ->
+  read_header_line line is_curves is_param = Some h ->
+  in_str 46 (h_name h) = false.
+Proof. exact name_no_period. Qed.
+
 (* ---- non-vacuity: concrete instances satisfying every hypothesis, and the model's result *)
 Definition ex_p0 := [32; 9]. Definition ex_p1 := [32]. Definition ex_p2 := [9; 32].
 Definition ex_p3 := [32; 32]. Definition ex_p4 := [32]. Definition ex_p5 := [9].
@@ -268,6 +285,12 @@ Example C04_ex_curves_dd_descr :
   read_header_line (layout [] (s2l "GR") [] (s2l "API") [32] (s2l "1") [32] [32] (s2l "see a..b") []) true false
   = Some (mkhl (s2l "GR") (s2l "API") (s2l "1") (s2l "see a..b")).
 Proof. vm_compute. split; reflexivity. Qed.
+(* neither period nor colon: no pattern matches (why C04_total_on_period_lines needs one) *)
+Example C04_ex_no_match : read_header_line (s2l "just words") false false = None.
+Proof. vm_compute. reflexivity. Qed.
+Example C04_ex_odd_line :
+  read_header_line (s2l "a.b.c d:e:f") false true = Some (mkhl (s2l "a") (s2l "b.c") (s2l "d") (s2l "e:f")).
+Proof. vm_compute. reflexivity. Qed.
 Example C04_ex_sweep_line : l2s (time_line 7 5) = "TIME.  07:05 23-JAN-2001 : Time: At Bottom".
 Proof. vm_compute. reflexivity. Qed.
 
@@ -282,3 +305,5 @@ Print Assumptions C04_no_double_dot_plain.
 Print Assumptions C04_param_time.
 Print Assumptions C04_param_parse.
 Print Assumptions C04_param_time_sweep.
+Print Assumptions C04_total_on_period_lines.
+Print Assumptions C04_name_no_period.
